@@ -163,7 +163,8 @@ def mkConstruct (c : Ctx) (k : Kind) (n : Name) (ctorF relF : Bool) (runB : RunB
     let o : Obj := { id, name := n, kind := k, relF, runB, isOpen := false, ts := .ready, started := false }
     ({ c with mgrs := c.mgrs ++ [o] }, some o)
 
-/-- second `with self._rpc_object_map_lock` block: re-check `_active`, publish the manager -/
+/-- second `with self._rpc_object_map_lock` block: re-check `_active`, publish the manager (the handler
+registration that follows, `register`, happens inside the same block) -/
 def mkPublish (c : Ctx) (n : Name) (o : Obj) : Except Exc Ctx :=
   if !c.active then .error .invalidOp
   else .ok { c with objMap := setKey c.objMap n (some o.id) }
@@ -287,17 +288,21 @@ def tjoin (c : Ctx) (n : Name) : Ctx × Out :=
 def addH (c : Ctx) (f : HF) : Ctx × Out :=
   ({ c with stopH := c.stopH ++ [f], hcalls := c.hcalls ++ [0] }, .ok)
 
-/-- `QMI_Context.start()`; `tcpF` / `udpF`: `bind` raises `OSError` -/
+/-- `MessageRouter.stop()`: every socket is closed, the thread ends, the TCP server port is forgotten -/
+def routerStop (c : Ctx) : Ctx := { c with conns := [], routerUp := false, tcpSet := false }
+
+/-- `QMI_Context.start()`; `tcpF` / `udpF`: `bind` raises `OSError`.  A start step that raises is rolled back:
+`except BaseException: self._message_router.stop(); raise`. -/
 def start (c : Ctx) (tcpF udpF : Bool) : Ctx × Out :=
   if c.active then (c, .exc .usage)
   else if c.used then (c, .exc .usage)
   else if c.routerUp then (c, .exc .assertion)          -- `MessageRouter.start`: `assert self._thread is None`
   else
     let c1 := { c with routerUp := true }
-    if c1.cfgTcp && tcpF then (c1, .exc .os)
+    if c1.cfgTcp && tcpF then (routerStop c1, .exc .os)
     else
       let c2 := if c1.cfgTcp then { c1 with tcpSet := true, conns := c1.conns ++ [.tcp] } else c1
-      if udpF then (c2, .exc .os)
+      if udpF then (routerStop c2, .exc .os)
       else ({ c2 with conns := c2.conns ++ [.udp], active := true, used := true }, .ok)
 
 /-- index of the first stop handler that raises a non-`Exception` -/
@@ -314,7 +319,7 @@ def stopHead (c : Ctx) : Except Exc Ctx :=
   if !c.active then .error .usage
   else match firstBase c.stopH 0 with
   | some _ => .error .base
-  | none => .ok { c with hcalls := c.hcalls.map (· + 1), conns := [], routerUp := false,
+  | none => .ok { c with hcalls := c.hcalls.map (· + 1), conns := [], routerUp := false, tcpSet := false,
                          log := c.log ++ (List.range c.stopH.length).map Ev.handler }
 
 /-- the state change of the aborted `stop()` when handler `i` raised a non-`Exception` -/
@@ -342,13 +347,22 @@ def stopManagers (c : Ctx) : List (Name × Nat) → Ctx × Out
       | some o => stopManagers (mgrStop c1 o) rest
       | none => (c1, .exc .assertion)
 
+/-- `QMI_Context._stop_rpc_objects()` -/
+def stopRpcObjects (c : Ctx) : Ctx × Out :=
+  let (c2, ms) := stopCollect c
+  stopManagers c2 ms
+
 def stop (c : Ctx) : Ctx × Out :=
   match stopHead c with
   | .error .base => (stopAborted c, .exc .base)
   | .error e => (c, .exc e)
-  | .ok c1 =>
-    let (c2, ms) := stopCollect c1
-    stopManagers c2 ms
+  | .ok c1 => stopRpcObjects c1
+
+/-- `QMI_Context._discard()` (called by `qmi.start()` when starting failed): `stop()` if the context became
+active, else mark it used and stop its internal `$context` object -/
+def discard (c : Ctx) : Ctx × Out :=
+  if c.active then stop c
+  else stopRpcObjects { c with used := true }
 
 inductive Op
   | make (k : Kind) (n : Name) (valid ctorF relF : Bool) (runB : RunB)
@@ -395,17 +409,24 @@ def freshStart (old : Ctx) : Out :=
 /-! ### layer B: the process-wide singleton (`context_singleton.py`) -/
 
 structure Proc where
-  single : Option Ctx
+  single  : Option Ctx
+  dropped : List Ctx          -- contexts `qmi.start()` gave up on (after `_discard()`); nobody holds them any more
   deriving DecidableEq, Repr
 
-def Proc.init : Proc := { single := none }
+def Proc.init : Proc := { single := none, dropped := [] }
 
-/-- `_connect_to_peers`: `reach[i]` says whether peer `i` accepts; a refused connection raises and
-leaves the earlier connections (and the running context) in place -/
+/-- `_connect_to_peers`: `reach[i]` says whether peer `i` accepts; a refused connection raises -/
 def connectPeers (c : Ctx) : List Bool → Nat → Ctx × Out
   | [], _ => (c, .ok)
   | true :: rest, i => connectPeers { c with conns := c.conns ++ [.peer i] } rest (i + 1)
   | false :: _, _ => (c, .exc .connRefused)
+
+/-- the `except BaseException` branch of `qmi.start()`: forget the global, `_discard()` the context, re-raise
+(an exception escaping `_discard()` replaces the original one) -/
+def qstartFailed (p : Proc) (c : Ctx) (o : Out) : Proc × Out :=
+  match discard c with
+  | (d, .ok) => ({ single := none, dropped := p.dropped ++ [d] }, o)
+  | (d, e) => ({ single := none, dropped := p.dropped ++ [d] }, e)
 
 /-- `qmi.start(name, context_cfg=…)` -/
 def qstart (p : Proc) (validName cfgTcp tcpF udpF : Bool) (peers : List Bool) : Proc × Out :=
@@ -417,9 +438,10 @@ def qstart (p : Proc) (validName cfgTcp tcpF udpF : Bool) (peers : List Bool) : 
       let c := Ctx.init cfgTcp                      -- `_qmi_context = QMI_Context(...)`
       match start c tcpF udpF with
       | (c1, .ok) =>
-        let (c2, o) := connectPeers c1 peers 0
-        ({ single := some c2 }, o)
-      | (c1, o) => ({ single := some c1 }, o)     -- no roll-back: the global stays assigned
+        match connectPeers c1 peers 0 with
+        | (c2, .ok) => ({ p with single := some c2 }, .ok)
+        | (c2, o) => qstartFailed p c2 o
+      | (c1, o) => qstartFailed p c1 o
 
 /-- `qmi.stop()` -/
 def qstop (p : Proc) : Proc × Out :=
@@ -427,8 +449,8 @@ def qstop (p : Proc) : Proc × Out :=
   | none => (p, .exc .noActive)
   | some c =>
     match stop { c with log := [] } with
-    | (_, .ok) => ({ single := none }, .ok)
-    | (c1, o) => ({ single := some c1 }, o)
+    | (_, .ok) => ({ p with single := none }, .ok)
+    | (c1, o) => ({ p with single := some c1 }, o)
 
 inductive POp
   | qstart (validName cfgTcp tcpF udpF : Bool) (peers : List Bool)
@@ -438,7 +460,7 @@ inductive POp
   deriving DecidableEq, Repr
 
 /-- the per-operation event list starts empty -/
-def Proc.clr (p : Proc) : Proc := { single := p.single.map (fun c => { c with log := [] }) }
+def Proc.clr (p : Proc) : Proc := { p with single := p.single.map (fun c => { c with log := [] }) }
 
 def pstep' (p : Proc) : POp → Proc × Out
   | .qstart v t tf uf peers => qstart p v t tf uf peers
@@ -447,7 +469,7 @@ def pstep' (p : Proc) : POp → Proc × Out
   | .op o =>
     match p.single with
     | none => (p, .exc .noActive)
-    | some c => let (c1, r) := step c o; ({ single := some c1 }, r)
+    | some c => let (c1, r) := step c o; ({ p with single := some c1 }, r)
 
 def pstep (p : Proc) (o : POp) : Proc × Out := pstep' p.clr o
 
@@ -464,8 +486,7 @@ def pouts (p : Proc) : List POp → List Out
 inductive MPc
   | reserve
   | construct
-  | publish (o : Obj)
-  | register (o : Obj)
+  | publish (o : Obj)                                   -- second locked block: re-check, publish **and register**
   | failStop (e : Exc) (o : Option Obj) (id : Nat)   -- inner/outer `finally`: `manager.stop()`
   | failDel (e : Exc)                                  -- outer `finally`: release the claimed name
   | done (r : Out)
@@ -505,11 +526,10 @@ def stepM (a : MakeArgs) (c : Ctx) : MPc → Ctx × MPc
   | .publish o =>
     match mkPublish c a.n o with
     | .error e => (c, .failStop e (some o) o.id)
-    | .ok c1 => (c1, .register o)
-  | .register o =>
-    match register c a.n o.id with
-    | .error e => (c, .done (.exc e))
-    | .ok c1 => (c1, .done .ok)
+    | .ok c1 =>
+      match register c1 a.n o.id with
+      | .error e => (c1, .done (.exc e))
+      | .ok c2 => (c2, .done .ok)
   | .failStop e (some o) _ => (mgrStop c o, .failDel e)
   | .failStop e none id => (mgrStopFailed c id, .failDel e)
   | .failDel e => (delName c a.n, .done (.exc e))
